@@ -783,4 +783,34 @@ theorem commented_row_is_dropped (k cp : Nat) (hk : k < 65536) (hc : cp < 65536)
       b1 _ (show cp % 16 < 16 by omega), hexField, n1.1, n2.1, n3.1, n4.1, m1.1, m2.1, m3.1, m4.1]
     omega
 
+/-! #### N. the table file as a FUNCTION: no key twice -/
+
+/-- when no key occurs twice among the rows, EVERY row of the file is what the loaded map answers for its key
+(with a duplicated key the map is last-wins and the earlier row is lost — and whatever key was meant is missing). -/
+theorem nodup_keys_every_row_loaded (rows : List Row) (hn : (rows.map (·.1)).Nodup) (k : Bytes) (cp : Nat)
+    (hm : (k, cp) ∈ rows) : tableOf (b2uMap rows) k = some (encodeUcs2 cp) := by
+  rw [tableOf_b2uMap]
+  unfold lastByKey
+  cases hf : rows.reverse.find? (fun r => r.1 == k) with
+  | none =>
+    have := List.find?_eq_none.1 hf (k, cp) (by simpa using hm)
+    simp at this
+  | some r =>
+    have hr : r ∈ rows := by simpa using List.mem_of_find?_eq_some hf
+    have hk : r.1 = k := by simpa using List.find?_some hf
+    have : r = (k, cp) := key_unique_of_nodup rows hn r (k, cp) hr hm hk
+    simp [this]
+
+/-- witness: a duplicated key loses the earlier row. -/
+theorem duplicate_key_loses_first_row (k : Bytes) (cp cp' : Nat) (h : encodeUcs2 cp ≠ encodeUcs2 cp') :
+    tableOf (b2uMap [(k, cp), (k, cp')]) k ≠ some (encodeUcs2 cp) := by
+  rw [tableOf_b2uMap]
+  simp [lastByKey, Ne.symm h]
+
+/-- counts over the regenerated table files: both files are functions — as many distinct keys (Big5 code in the b2u
+file, code point in the u2b file) as rows. (A mistyped key that repeats another one breaks this theorem.) -/
+theorem real_tables_have_no_duplicate_key :
+    Gen.Big5.b2uDistinctKeys = Gen.Big5.b2uRowsByContent ∧ Gen.Big5.u2bDistinctKeys = Gen.Big5.u2bRowsByContent := by
+  decide
+
 end PttVerif.C17.Props
